@@ -13,6 +13,8 @@ use std::collections::{BTreeMap, BTreeSet};
 use std::panic;
 
 pub const MAXN: usize = 5;
+/// fact node meaning: the record is added without a term
+pub const NO_TERM: u8 = 255;
 
 #[derive(Clone, Debug, PartialEq, Eq)]
 pub struct Case {
@@ -110,7 +112,11 @@ impl Model {
         }
         let mut recs: [BTreeMap<u32, BTreeSet<usize>>; 3] = Default::default();
         for &(k, r, d) in &c.facts {
-            recs[k as usize].entry(r).or_default().insert(d as usize);
+            let e = recs[k as usize].entry(r).or_default();
+            // node 255 = a record that is added without any term
+            if d != NO_TERM {
+                e.insert(d as usize);
+            }
         }
         Model { n, ids: ids(c.idmap, n), parents, children, anc, recs }
     }
@@ -186,6 +192,18 @@ pub fn build_opts(c: &Case, defaults: bool, dup: bool) -> Result<Ontology, Strin
     }
     let mut b = b.connect_all_terms();
     for &(k, r, d) in &c.facts {
+        if d == NO_TERM {
+            match k {
+                0 => b.add_gene(&format!("G{r}"), GeneId::from(r)),
+                1 => {
+                    b.add_omim_disease(&format!("O{r}"), OmimDiseaseId::from(r));
+                }
+                _ => {
+                    b.add_orpha_disease(&format!("R{r}"), OrphaDiseaseId::from(r));
+                }
+            }
+            continue;
+        }
         let t: HpoTermId = m.ids[d as usize].into();
         let res = match k {
             0 => b.annotate_gene(GeneId::from(r), &format!("G{r}"), t),
@@ -384,6 +402,25 @@ fn check_c10_with(c: &Case, dup: bool) -> Check {
     for (r, _) in &m.recs[0] {
         let g = ont.gene_by_name(&format!("G{r}")).ok_or("gene_by_name misses a gene")?;
         expect("gene_by_name", g.id().as_u32(), *r)?;
+    }
+    for (r, _) in &m.recs[0] {
+        // the symbol is matched exactly: case variants, prefixes and extensions name no gene
+        for q in [format!("g{r}"), format!("G{r} "), "G".to_string(), format!("G{r}0")] {
+            if !m.recs[0].keys().any(|x| format!("G{x}") == q) {
+                if let Some(g) = ont.gene_by_name(&q) {
+                    return Err(format!("gene_by_name({q:?}) returns the gene {:?}", g.name()));
+                }
+            }
+        }
+    }
+    for q in ["o", "O", "", "O1", "o1", "2", "X"] {
+        let found: BTreeSet<u32> = ont.omim_diseases_by_name(q).map(|d| d.id().as_u32()).collect();
+        let exp: BTreeSet<u32> = m.recs[1].keys().filter(|x| format!("O{x}").contains(q)).copied().collect();
+        expect(&format!("omim_diseases_by_name({q:?})"), found, exp.clone())?;
+        let first = ont.omim_disease_by_name(q).map(|d| d.id().as_u32());
+        if first.is_some() != !exp.is_empty() || first.map_or(false, |f| !exp.contains(&f)) {
+            return Err(format!("omim_disease_by_name({q:?}) = {first:?}, the diseases whose name contains it are {exp:?}"));
+        }
     }
     if ont.gene_by_name("no such gene").is_some() {
         return Err("gene_by_name finds a gene that does not exist".into());
@@ -695,6 +732,18 @@ pub fn check_c15(c: &Case) -> Check {
             }
         }
         for &(k, r, d) in &c.facts {
+            if d == NO_TERM {
+                match k {
+                    0 => b.add_gene(&format!("G{r}"), GeneId::from(r)),
+                    1 => {
+                        b.add_omim_disease(&format!("O{r}"), OmimDiseaseId::from(r));
+                    }
+                    _ => {
+                        b.add_orpha_disease(&format!("R{r}"), OrphaDiseaseId::from(r));
+                    }
+                }
+                continue;
+            }
             let t: HpoTermId = m.ids[d as usize].into();
             for &mi in &missing {
                 // an existing record annotated to a missing term: error, record unchanged
@@ -789,6 +838,10 @@ pub fn fact_sets(n: usize, thorough: bool) -> Vec<Vec<(u8, u32, u8)>> {
     // one record of each kind on one node; totals differ per kind
     for d in 0..n as u8 {
         v.push(vec![(0, 1, d), (1, 2, d), (1, 3, 0), (2, 4, d), (2, 5, 0), (2, 6, 0)]);
+    }
+    // records without any term: they count towards the totals of their kind
+    for d in 0..n as u8 {
+        v.push(vec![(0, 1, d), (0, 9, NO_TERM), (1, 2, d), (1, 9, NO_TERM), (1, 8, NO_TERM), (2, 4, d), (2, 9, NO_TERM), (2, 8, NO_TERM), (2, 7, NO_TERM)]);
     }
     // ordered pairs of facts for the same record (both orders are different cases), per kind
     for k in 0..3u8 {
@@ -894,7 +947,7 @@ pub fn explore(prop: &str, thorough: bool) -> i32 {
     if prop == "C17" {
         return match check_c17_all(thorough) {
             Ok(n) => {
-                println!("EXPLORE-OK property={prop} cases={n} distinct_dags=1 max_terms=12 sample=linkage");
+                println!("EXPLORE-OK property={prop} cases={n} distinct_dags={n} max_terms=12 sample=linkage");
                 0
             }
             Err(e) => {
@@ -930,9 +983,16 @@ pub fn explore(prop: &str, thorough: bool) -> i32 {
     let mut cs = cases(thorough, idmaps, with_facts);
     // drop the cases an oracle would skip, so that the reported count is what was really explored
     match prop {
-        "C18" => cs.retain(|c| c.order == 0 && (c.idmap == 0 || c.n <= 3 || thorough)),
+        // each case is compared with ~40-60 edited variants: the 5-term graphs only with the empty and one mixed fact set
+        "C18" => cs.retain(|c| c.order == 0 && (c.idmap == 0 || c.n <= 3 || thorough) && (c.n < 5 || (c.idmap == 0 && (c.facts.is_empty() || (c.facts.len() == 6 && c.facts[0].2 == 0))))),
+        // five builds per case
+        "C16" => cs.retain(|c| c.order == 0 && (c.n < 5 || c.facts.len() != 4)),
         "C08" => cs.retain(|c| c.n >= 2 && c.edges & 1 == 1),
         _ => {}
+    }
+    if prop == "C04" && !thorough {
+        // the distance-based similarity needs 5 terms to tell a detour from the direct descent: add the fact-free 5-term graphs
+        cs.extend(cases(false, idmaps, false).into_iter().filter(|c| c.n == 5 && c.order == 0));
     }
     let distinct: BTreeSet<(usize, u32)> = cs.iter().map(|c| (c.n, c.edges)).collect();
     let sample = cs.get(cs.len() / 2).map(|c| c.id()).unwrap_or_default();
@@ -942,7 +1002,7 @@ pub fn explore(prop: &str, thorough: bool) -> i32 {
                 "EXPLORE-OK property={prop} cases={} distinct_dags={} max_terms={} sample={sample}",
                 n + extra,
                 distinct.len(),
-                if thorough || !with_facts { 5 } else { 4 }
+                if thorough || !with_facts || prop == "C04" { 5 } else { 4 }
             );
             0
         }
@@ -1606,7 +1666,7 @@ pub fn check_c18(c: &Case) -> Check {
             }
         }
         v.edges = e2;
-        v.facts.retain(|f| (f.2 as usize) < c.n - 1);
+        v.facts.retain(|f| (f.2 as usize) < c.n - 1 || f.2 == NO_TERM);
         variants.push(Variant { case: v, enc: None });
     }
     let np = pairs(c.n).len();
@@ -1634,7 +1694,7 @@ pub fn check_c18(c: &Case) -> Check {
         v.facts.remove(i);
         variants.push(Variant { case: v, enc: None });
         let mut v = c.clone();
-        v.facts[i].2 = (v.facts[i].2 + 1) % c.n as u8;
+        v.facts[i].2 = if v.facts[i].2 == NO_TERM { 0 } else { (v.facts[i].2 + 1) % c.n as u8 };
         variants.push(Variant { case: v, enc: None });
     }
     // edits the Builder cannot express: through the independent v3 encoder (both sides, so that only the edit differs)
